@@ -122,7 +122,7 @@ fn check_path(t: &mut Tally, input: &str) {
     }
 }
 
-const PATTERNS: [&str; 7] = ["p-[0-9]*", "p>=1<2", "{p,q}-1", "p-1", "p>1>2", "{p", ""];
+const PATTERNS: [&str; 11] = ["p-[0-9]*", "p>=1<2", "{p,q}-1", "p-1", "p>1>2", "{p", "", "{foo-[,p-[0-9]*}", "{p>1>2,q-1}", "{p,{q,r}}-[0-9]*", "{,p}-1"];
 const PATHS: [&str; 11] = ["c/p", "../../c/p", "c", "a/b/c", "a/../b", "", "c//p/", "./c/p", "c/p\n", "c/\n", "../../c/p/\n"];
 
 fn check_depend(t: &mut Tally, pat: &str, path: &str, colons: &[usize]) {
@@ -157,6 +157,14 @@ fn check_depend(t: &mut Tally, pat: &str, path: &str, colons: &[usize]) {
             t.nontrivial += 1;
         }
         (Some((wp, wpath)), Ok(d)) => {
+            // the dependency's pattern is used before it is compared (equality is about the value, not
+            // about what an object has been used for)
+            let _ = guard(|| (d.pattern().matches("p-1"), d.pattern().matches("q-2.0"), d.pattern().best_match("p-1", "p-2"), d.pattern().matches(wp)));
+            let again = guard(|| Depend::new(&input));
+            if !matches!(&again, Ok(Ok(d2)) if d2 == d && d2.pattern() == d.pattern()) {
+                t.violation(Violation::new("depend", case(), json!("equal to a freshly parsed one, also after its pattern was used"), json!(format!("{:?}", again.map(|r| r.map(|x| x == *d)))), "a dependency equals the same text parsed again"));
+                return;
+            }
             let direct = guard(|| (Pattern::new(wp), PkgPath::new(parts[1])));
             match direct {
                 Ok((Ok(dp), Ok(dpath))) => {
@@ -201,7 +209,7 @@ fn main() {
         "paths: every sequence of <= N segments over {'..', '.', 'a', 'b', '' (empty), 'a.b', '.a', '..a', '...', '.. '} joined \
          by '/', with and without a leading '/': accept set vs the component rule; for accepted \
          inputs the short / full accessors (as paths), equality and equal hashes of the value with \
-         both canonical spellings, and re-parsing each accessor's text. Dependencies: 7 pattern \
+         both canonical spellings, and re-parsing each accessor's text. Dependencies: 11 pattern \
          halves (glob, two-bound dewey, brace, plain, invalid operator order, unbalanced brace, \
          empty) x 11 path halves (short, long, one segment, three segments, 'a/../b', empty, \
          repeated slashes, leading './') x 0-3 colons before, between and after the halves: Ok iff \
